@@ -718,7 +718,13 @@ class StubsStringGenerator:
 
         # Enum body
         enum_text = ""
-        instances = enum_data.instances
+        # Members with a private name ("_ignore_", "_secret") are no part of the public API
+        instances = [
+            enum_instance
+            for enum_instance in enum_data.instances
+            if not is_internal(enum_instance.name)
+            or (enum_instance.name.startswith("__") and enum_instance.name.endswith("__") and len(enum_instance.name) > 4)
+        ]
         if instances:
             enum_text += "\n"
 
